@@ -363,10 +363,13 @@ fn gen_scale(rng: &mut Rng, kind: usize, g: bool) -> (String, usize, usize) {
         loop {
             let s: String = units[..k].concat();
             let lens: Vec<usize> = vh::split_clusters(&s, g).map(str::len).collect();
-            if fits(kind, &lens, max, ctx) || k <= 255 {
+            // (below the smallest scale size a case that still does not fit is halved: with runs of one character,
+            // a step of one character and a context of hundreds of characters even 255 units cost the three model
+            // runs of `agree` 20 s, the whole budget the driver gives a case)
+            if fits(kind, &lens, max, ctx) || k <= 8 {
                 return s;
             }
-            k = SCALE_SIZES.iter().rev().copied().find(|z| *z < k).unwrap_or(255);
+            k = SCALE_SIZES.iter().rev().copied().find(|z| *z < k).unwrap_or(k / 2);
         }
     };
     match rng.below(10) {
